@@ -63,8 +63,8 @@ TextKind(key) == CASE key = "alert" -> "text"
                    [] key = "aval" -> "atext"
                    [] OTHER -> "text"            \* label values
 
-Classes(tk) == CASE tk = "text"   -> {"one", "spaces", "special", "rune", "repeat", "escnl"}
-                 [] tk = "atext"  -> {"one", "spaces", "special", "rune", "repeat", "escnl", "tmpl"}
+Classes(tk) == CASE tk = "text"   -> {"one", "spaces", "special", "rune", "repeat", "escnl", "tab", "esctab"}
+                 [] tk = "atext"  -> {"one", "spaces", "special", "rune", "repeat", "escnl", "tmpl", "tmpll", "tab", "esctab"}
                  [] tk = "expr"   -> {"one", "spaces", "special", "rune", "repeat"}
                  [] tk = "metric" -> {"one", "repeat"}
                  [] tk = "dur"    -> {"one"}
@@ -92,7 +92,12 @@ Words(tk, cls, key) ==
                                    WdQ("\"q\"", "\"q\"", "\\\"q\\\""), WdQ("b\\s", "b\\s", "b\\\\s")>>
            [] cls = "rune"    -> <<WdU("caf@", 1), Wd("down"), WdU("@@", 2)>>
            [] cls = "escnl"   -> <<WdQ("x y", "x y", "x\\ny"), Wd("z")>>
+           \* "%t" stands for one tab byte (2 characters, 1 byte: x = -1); esctab spells it `\t` inside double quotes
+           [] cls = "tab"     -> <<[t |-> "x%ty", sq |-> "x%ty", dq |-> "x%ty", x |-> -1], Wd("z")>>
+           [] cls = "esctab"  -> <<WdQ("x%ty", "x%ty", "x\\ty"), Wd("z")>>
            [] cls = "tmpl"    -> <<Wd("{{"), Wd("$value"), Wd("}}"), Wd("ok")>>
+           \* a label the base expr aggregates away: alerts/template reports it with a column range inside the value
+           [] cls = "tmpll"   -> <<Wd("on"), Wd("{{"), Wd("$labels.instance"), Wd("}}"), Wd("gone")>>
            [] OTHER           -> <<Wd(key)>>)
 
 -----------------------------------------------------------------------------
@@ -103,12 +108,14 @@ BlockStyles  == {"lit", "fold"}
 Shapes       == {"flat", "sp2", "brk1", "brkall", "blank1", "more1"}
 
 ScDef == [cls |-> "one", style |-> "plain", shape |-> "flat", chomp |-> "clip", ind |-> FALSE,
-          step |-> 2, lead |-> 0, hc |-> FALSE, tb |-> 0, own |-> FALSE]
+          step |-> 2, lead |-> 0, hc |-> FALSE, tb |-> 0, own |-> FALSE,
+          sepk |-> "sp",     \* separation after "key:" - one blank ("sp") or one tab ("tab")
+          prop |-> ""]       \* node property in front of the value: "" | "tag" (`!!str`) | "anc" (`&<key>`)
 
 \* classes a style can spell
 StyleOK(style, cls) ==
-  /\ cls = "escnl" => style \in {"dq", "mdq"}
-  /\ cls = "tmpl"  => style \notin {"plain", "mplain"}
+  /\ cls \in {"escnl", "esctab"} => style \in {"dq", "mdq"}
+  /\ cls = "tmpl" => style \notin {"plain", "mplain"}
 
 ShapeOK(shape, n) == CASE shape = "flat" -> TRUE [] shape = "brkall" -> n >= 3 [] OTHER -> n >= 2
 
@@ -132,7 +139,8 @@ GLines(ws, shape, q, i, cur) ==
 Groups(ws, sc) == GLines(ws, sc.shape, QuoteOf(sc.style), 2, Src(ws[1], QuoteOf(sc.style)))
 
 Digit(n) == CASE n = 0 -> "0" [] n = 1 -> "1" [] n = 2 -> "2" [] n = 3 -> "3" [] n = 4 -> "4" [] OTHER -> "9"
-Cmt(ws)  == Cat(F(" # c "), FX(ws[1].t, ws[1].x))
+\* the comment repeats the first word of the value as TEXT ("%t" there is a literal tab byte even when the value spells it `\t`)
+Cmt(ws)  == Cat(F(" # c "), FX(ws[1].t, IF ws[1].t = "x%ty" THEN -1 ELSE ws[1].x))
 
 (* ScRender: the scalar `sc` with words `ws`, written after a prefix of `c0` bytes that ends with
    the ':' of its key (flow = FALSE) or directly at column c0+1 (flow = TRUE); `pi` is the
@@ -143,20 +151,24 @@ Cmt(ws)  == Cat(F(" # c "), FX(ws[1].t, ws[1].x))
      pos   : the exact cells (per line [l, f, t]; bl = cell of an empty line) for regular scalars
      reg   : the scalar is regular (no escapes, no header comment, no extra indentation, ...)
      lastc : offset of the last line holding value characters                                  *)
-ScRender(sc, ws, c0, pi, flow) ==
+ScRender(sc, ws, c0, pi, flow, an) ==
   LET q     == QuoteOf(sc.style)
       ql    == IF q = "p" THEN 0 ELSE 1
       qs    == F(CASE q = "s" -> "'" [] q = "d" -> "\"" [] OTHER -> "")
       G     == Groups(ws, sc)
       nG    == Len(G)
       noesc == \A i \in 1..Len(ws) : ~Escaped(ws[i], q)
-      gap   == IF flow THEN 0 ELSE 1              \* the blank after "key:"
+      \* what stands between "key:" and the token: the separation (blank or tab) and a node property
+      lead0 == IF flow \/ sc.own THEN Empty
+               ELSE Cat(IF sc.sepk = "tab" THEN FX("%t", -1) ELSE F(" "),
+                        CASE sc.prop = "tag" -> F("!!str ") [] sc.prop = "anc" -> F("&" \o an \o " ") [] OTHER -> Empty)
+      gap   == BL(lead0)
       c     == c0 + gap + 1                       \* column of the first byte of the token
   IN
   IF sc.style \in SingleStyles THEN
     LET body == [t |-> G[1].t, x |-> G[1].x]
         tok  == Cat3(qs, body, qs) IN
-    [first |-> Cat3(FSp(gap), tok, IF sc.hc THEN Cmt(ws) ELSE Empty),
+    [first |-> Cat3(lead0, tok, IF sc.hc THEN Cmt(ws) ELSE Empty),
      rest  |-> <<>>,
      allow |-> <<[l |-> 0, lo |-> c, hi |-> c + BL(tok) - 1]>>,
      pos   |-> <<[l |-> 0, f |-> c + ql, t |-> c + ql + BL(body) - 1, bl |-> FALSE]>>,
@@ -176,7 +188,7 @@ ScRender(sc, ws, c0, pi, flow) ==
         vs(k)   == sc0(k) + (IF k = 1 THEN ql ELSE 0)                            \* first value byte
         ve(k)   == len(k) - (IF k = lastG THEN ql ELSE 0)                        \* last value byte
     IN
-    [first |-> IF sc.own THEN Empty ELSE Cat(F(" "), txt(1)),
+    [first |-> IF sc.own THEN Empty ELSE Cat(lead0, txt(1)),
      rest  |-> [k \in 1..(IF sc.own THEN nG ELSE nG - 1) |-> full(IF sc.own THEN k ELSE k + 1)],
      allow |-> [k \in 1..nG |-> [l |-> rl(k), lo |-> IF k = 1 /\ ~sc.own THEN c ELSE 1, hi |-> len(k) + 1]],
      pos   |-> [k \in 1..nG |-> IF G[k].b THEN [l |-> rl(k), f |-> 1, t |-> 1, bl |-> TRUE]
@@ -192,7 +204,7 @@ ScRender(sc, ws, c0, pi, flow) ==
         full(k) == IF G[k].b THEN Empty ELSE Cat(FSp(bi + ext(k)), [t |-> G[k].t, x |-> G[k].x])
         h       == nG + sc.tb
     IN
-    [first |-> Cat3(F(" "), hdr, IF sc.hc THEN Cmt(ws) ELSE Empty),
+    [first |-> Cat3(lead0, hdr, IF sc.hc THEN Cmt(ws) ELSE Empty),
      rest  |-> [k \in 1..h |-> IF k <= nG THEN full(k) ELSE Empty],
      allow |-> [k \in 1..h |-> [l |-> k, lo |-> 1, hi |-> (IF k <= nG THEN BL(full(k)) ELSE 0) + 1]],
      pos   |-> [k \in 1..nG |-> IF G[k].b THEN [l |-> k, f |-> 1, t |-> 1, bl |-> TRUE]
@@ -206,12 +218,14 @@ ScRender(sc, ws, c0, pi, flow) ==
 ScSig(sc) == sc.style \o ":" \o sc.cls \o ":" \o sc.shape \o ":" \o sc.chomp
              \o ":i" \o (IF sc.ind THEN "1" ELSE "0") \o ":s" \o Digit(sc.step) \o ":l" \o Digit(sc.lead)
              \o ":hc" \o (IF sc.hc THEN "1" ELSE "0") \o ":tb" \o Digit(sc.tb) \o ":own" \o (IF sc.own THEN "1" ELSE "0")
+             \o ":k" \o sc.sepk \o ":p" \o sc.prop
 
 -----------------------------------------------------------------------------
 (* Items, rules, documents                                                 *)
 ItDef == [k |-> "", kind |-> "scalar", sc |-> ScDef, flow |-> FALSE, mstep |-> 2, kvs |-> <<>>]
 ScalarItem(k, sc)   == [ItDef EXCEPT !.k = k, !.sc = sc]
 MapItem(k, fl, ms, kvs) == [ItDef EXCEPT !.k = k, !.kind = "map", !.flow = fl, !.mstep = ms, !.kvs = kvs]
+AliasItem(k) == [ItDef EXCEPT !.k = k, !.kind = "aliasval"]   \* `k: *k` - the value is an alias of an anchored earlier scalar
 CmtItem   == [ItDef EXCEPT !.kind = "cmt"]
 BlankItem == [ItDef EXCEPT !.kind = "blank"]
 KV(kn, ks, v) == [kn |-> kn, ks |-> ks, v |-> v]
@@ -230,9 +244,9 @@ RECURSIVE MapBlock(_, _, _, _, _, _)
 MapBlock(mapkey, kvs, j, mi, K, acc) ==
   IF j > Len(kvs) THEN acc
   ELSE LET e   == kvs[j]
-           kr  == ScRender(e.ks, <<Wd(e.kn)>>, mi, mi, TRUE)
+           kr  == ScRender(e.ks, <<Wd(e.kn)>>, mi, mi, TRUE, "")
            c0v == mi + BL(kr.first) + 1
-           vr  == ScRender(e.v, Words(ValKind(mapkey), e.v.cls, e.kn), c0v, mi, FALSE)
+           vr  == ScRender(e.v, Words(ValKind(mapkey), e.v.cls, e.kn), c0v, mi, FALSE, e.kn)
            ln  == Cat(Cat3(FSp(mi), kr.first, F(":")), vr.first)
            nk  == Node(KeyField(mapkey, j, "k"), "mkey", kr, K, e.ks)
            nv  == Node(KeyField(mapkey, j, "v"), IF mapkey = "annotations" THEN "aval" ELSE "lval", vr, K, e.v)
@@ -245,9 +259,9 @@ MapFlow(mapkey, kvs, j, K, cur, nodes) ==
   IF j > Len(kvs) THEN [line |-> Cat(cur, F("}")), nodes |-> nodes]
   ELSE LET e    == kvs[j]
            cur1 == IF j = 1 THEN cur ELSE Cat(cur, F(", "))
-           kr   == ScRender(e.ks, <<Wd(e.kn)>>, BL(cur1), 0, TRUE)
+           kr   == ScRender(e.ks, <<Wd(e.kn)>>, BL(cur1), 0, TRUE, "")
            cur2 == Cat3(cur1, kr.first, F(": "))
-           vr   == ScRender(e.v, Words(ValKind(mapkey), e.v.cls, e.kn), BL(cur2), 0, TRUE)
+           vr   == ScRender(e.v, Words(ValKind(mapkey), e.v.cls, e.kn), BL(cur2), 0, TRUE, "")
            nk   == Node(KeyField(mapkey, j, "k"), "mkey", kr, K, e.ks)
            nv   == Node(KeyField(mapkey, j, "v"), IF mapkey = "annotations" THEN "aval" ELSE "lval", vr, K, e.v)
        IN MapFlow(mapkey, kvs, j + 1, K, Cat(cur2, vr.first), nodes \o <<nk, nv>>)
@@ -264,8 +278,15 @@ RenderItem(it, ri, isFirst, K) ==
   IN
   CASE it.kind = "cmt"   -> [lines |-> <<Cat(FSp(pi), F("# note"))>>, nodes |-> <<>>, lastc |-> 0]
     [] it.kind = "blank" -> [lines |-> <<Empty>>, nodes |-> <<>>, lastc |-> 0]
+    \* the alias token `*k` is all the file holds at the use site: ExpectedSpan = the token, no exact cells
+    [] it.kind = "aliasval" ->
+         LET c == BL(prefix) + 2 IN
+         [lines |-> <<Cat(prefix, F(" *" \o it.k))>>,
+          nodes |-> <<[field |-> it.k, fk |-> it.k, allow |-> <<[l |-> K, lo |-> c, hi |-> c + Len(it.k)]>>, pos |-> <<>>,
+                      reg |-> FALSE, sig |-> it.k \o ":aliasval", lastc |-> K, blk |-> FALSE]>>,
+          lastc |-> K]
     [] it.kind = "scalar" ->
-         LET r == ScRender(it.sc, Words(TextKind(it.k), it.sc.cls, it.k), BL(prefix), pi, FALSE) IN
+         LET r == ScRender(it.sc, Words(TextKind(it.k), it.sc.cls, it.k), BL(prefix), pi, FALSE, it.k) IN
          [lines |-> <<Cat(prefix, r.first)>> \o r.rest,
           nodes |-> <<Node(it.k, it.k, r, K, it.sc)>>,
           lastc |-> K + r.lastc]
@@ -310,7 +331,12 @@ RuleName(rule) == LET it == rule.items[NameItem(rule)] IN JoinT(Words(TextKind(i
    the anchored mapping, so the alias yields the same rule again - same values, positions and Lines.
    ExpectedLines of a rule = what parseRule accumulates: from the line of the first key to the last
    line holding a character of any key or value.                                                   *)
-RuleDef == [items |-> <<>>, anchor |-> FALSE, alias |-> 0]
+RuleDef == [items |-> <<>>, anchor |-> FALSE, alias |-> 0, merge |-> 0]
+Unreg(nodes) == [i \in DOMAIN nodes |-> [nodes[i] EXCEPT !.reg = FALSE]]
+SelNodes(nodes, keep(_)) == LET RECURSIVE Sel(_)
+                                Sel(i) == IF i > Len(nodes) THEN <<>>
+                                          ELSE (IF keep(nodes[i]) THEN <<nodes[i]>> ELSE <<>>) \o Sel(i + 1)
+                            IN Sel(1)
 RECURSIVE RenderRules(_, _, _, _, _)
 RenderRules(rules, i, ri, K, acc) ==
   IF i > Len(rules) THEN acc
@@ -318,6 +344,20 @@ RenderRules(rules, i, ri, K, acc) ==
   THEN RenderRules(rules, i + 1, ri, K + 1,
                    [lines |-> Append(acc.lines, Cat(FSp(ri), F("- *r" \o Digit(rules[i].alias)))),
                     rules |-> Append(acc.rules, [acc.rules[rules[i].alias] EXCEPT !.alias = TRUE])])
+  ELSE IF rules[i].merge > 0
+  \* `- <<: *r<k>` + own keys: unpackNodes / resolveMapAlias give parseRule the anchored rule's key/value nodes
+  \* that the rule does not set itself, so those fields keep the positions (and lines) of the anchored rule
+  THEN LET K1  == K + 1
+           r   == RenderItems(rules[i].items, 1, ri, K1, FALSE, [lines |-> <<>>, nodes |-> <<>>, last |-> K1])
+           src == acc.rules[rules[i].merge]
+           \* (the own keys of a merging rule are scalar fields)
+           inh == Unreg(SelNodes(src.nodes, LAMBDA n : \A j \in DOMAIN rules[i].items : n.field # rules[i].items[j].k))
+           lo  == IF inh = <<>> THEN K1 ELSE Min(K1, src.first) IN
+       RenderRules(rules, i + 1, ri, K1 + Len(r.lines),
+                   [lines |-> acc.lines \o <<Cat(FSp(ri), F("- <<: *r" \o Digit(rules[i].merge)))>> \o r.lines,
+                    rules |-> Append(acc.rules, [first |-> lo, last |-> Max(r.last, IF inh = <<>> THEN 0 ELSE src.last),
+                                                 type |-> RuleType(rules[i]), name |-> RuleName(rules[i]),
+                                                 nodes |-> inh \o Unreg(r.nodes), alias |-> TRUE])])
   ELSE LET a  == IF rules[i].anchor THEN <<Cat(FSp(ri), F("- &r" \o Digit(i)))>> ELSE <<>>
            K1 == K + Len(a)
            r  == RenderItems(rules[i].items, 1, ri, K1, ~rules[i].anchor, [lines |-> <<>>, nodes |-> <<>>, last |-> K1]) IN
@@ -388,6 +428,13 @@ ShiftRule(r, dL, dC, embed) ==
   [r EXCEPT !.first = @ + dL, !.last = @ + dL,
             !.nodes = [i \in DOMAIN r.nodes |-> ShiftNode(r.nodes[i], dL, dC, embed)]]
 
+(* CR LF line endings: pint keeps the CR in its lines, so the newline cell of a line is len+2 (the LF byte)
+   and the cell of an empty line is column 2; cells of characters do not move. Regions that reach the
+   newline cell are widened by one; the exact cells of multi-line scalars are not asserted.             *)
+CrlfRegs(rs, lines) == [i \in DOMAIN rs |-> IF rs[i].hi = BL(lines[rs[i].l]) + 1 THEN [rs[i] EXCEPT !.hi = @ + 1] ELSE rs[i]]
+CrlfNode(n, lines)  == [n EXCEPT !.allow = CrlfRegs(@, lines), !.reg = @ /\ Len(n.pos) = 1 /\ Len(n.allow) = 1]
+CrlfRule(r, lines)  == [r EXCEPT !.nodes = [i \in DOMAIN r.nodes |-> CrlfNode(r.nodes[i], lines)]]
+
 (* Render: the file as written, ExpectedSpan / ExpectedLines of every rule, and the displacement. *)
 Render(lay) ==
   LET b  == RenderBase(lay)
@@ -396,8 +443,10 @@ Render(lay) ==
       dC == w.ind
       body == [i \in DOMAIN b.lines |-> IF b.lines[i].t = "" /\ ~lay.wrap.embed THEN Empty
                                        ELSE Cat(FSp(dC), b.lines[i])]
-  IN [lines |-> w.before \o body \o w.after,
-      rules |-> [i \in DOMAIN b.rules |-> ShiftRule(b.rules[i], dL, dC, lay.wrap.embed)],
+      all  == w.before \o body \o w.after
+      rs   == [i \in DOMAIN b.rules |-> ShiftRule(b.rules[i], dL, dC, lay.wrap.embed)]
+  IN [lines |-> all,
+      rules |-> IF lay.crlf THEN [i \in DOMAIN rs |-> CrlfRule(rs[i], all)] ELSE rs,
       dLine |-> dL, dCol |-> dC, nB |-> w.nB, nA |-> w.nA,
       baseLines |-> b.lines, baseRules |-> b.rules]
 
